@@ -654,11 +654,19 @@ func newLsRepl() *lsRepl {
 		return 1_000_000 + r.clk
 	})
 	other := newReplica(200)
-	for i := 0; i < 4; i++ {
+	for i := 0; i < 2; i++ {
 		other.st.SessionMetadatas().Create(fmt.Sprintf("fs%d", i), "fc", 1, nil, "_default")
 		other.st.Subscriptions().Create(fmt.Sprintf("fs%d", i), []byte(fmt.Sprintf("_default/f/%d", i)), 1)
-		other.st.Topics().Set(&packet.Publish{Header: &packet.Header{}, Topic: []byte(fmt.Sprintf("_default/fr/%d", i)), Payload: []byte("fv")})
+		other.st.Topics().Set(&packet.Publish{Header: &packet.Header{}, Topic: []byte(fmt.Sprintf("_default/fr/%d", i)), Payload: []byte("fv1")})
 	}
+	// competing updates to the same keys: whatever subset of them has been delivered, in whatever
+	// order and however interleaved, the newest delivered one must win
+	other.st.Topics().Set(&packet.Publish{Header: &packet.Header{}, Topic: []byte("_default/fr/0"), Payload: []byte("fv2")})
+	other.st.Topics().Delete([]byte("_default/fr/1"))
+	other.st.Topics().Set(&packet.Publish{Header: &packet.Header{}, Topic: []byte("_default/fr/0"), Payload: []byte("fv3")})
+	other.st.Subscriptions().Delete("fs0", []byte("_default/f/0"))
+	other.st.Subscriptions().Create("fs0", []byte("_default/f/0"), 2)
+	other.st.SessionMetadatas().Delete("fs1")
 	r.foreign = other.drain()
 	q := &memberlist.TransmitLimitedQueue{RetransmitMult: 3, NumNodes: func() int { return 0 }}
 	r.bcast = q
@@ -739,6 +747,43 @@ func (r *lsRepl) final(ops []lsOp) string {
 		got[k] = "present"
 		if strings.HasPrefix(l, "R|") {
 			got[k] = "present:" + strings.Split(l, "|")[2]
+		}
+	}
+	// foreign keys: LWW fold of exactly the foreign updates that were delivered during the run
+	delivered := map[int]bool{}
+	for _, op := range ops {
+		f := strings.Split(op.in, "|")
+		switch f[0] {
+		case "notify":
+			var i int
+			fmt.Sscan(f[3], &i)
+			if i < len(r.foreign) {
+				delivered[i] = true
+			}
+		case "mergeall":
+			for i := range r.foreign {
+				delivered[i] = true
+			}
+		}
+	}
+	ref := model{}
+	for i := range r.foreign {
+		if delivered[i] {
+			ev := &api.StateBroadcastEvent{}
+			if proto.Unmarshal(r.foreign[i], ev) == nil {
+				foldEvent(ref, ev, map[string]map[int64]bool{})
+			}
+		}
+	}
+	for k, e := range ref {
+		g, listed := got[k]
+		switch {
+		case e.visible && !listed:
+			return fmt.Sprintf("foreign entry %s: the newest delivered update says it exists (%s) but it is not listed", k, e.line)
+		case !e.visible && listed:
+			return fmt.Sprintf("foreign entry %s: the newest delivered update removed it but it is listed", k)
+		case e.visible && strings.HasPrefix(k, "R|") && g != "present:"+strings.Split(e.line, "|")[2]:
+			return fmt.Sprintf("foreign entry %s: the newest delivered update says %s, the state lists %q (an older update overrode a newer one)", k, e.line, g)
 		}
 	}
 	keys := make([]string, 0, len(want))
@@ -881,7 +926,7 @@ func (x *lsRetx) final(ops []lsOp) string {
 // ---------------------------------------------------------------------------------------
 // running a case
 
-var lsObjects = []string{"registry", "idpool", "retained", "subscriptions", "sesstopics", "ackq", "repl", "retx"}
+var lsObjects = []string{"registry", "idpool", "retained", "subscriptions", "sesstopics", "ackq", "repl", "retx", "replmerge"}
 
 func buildLsObject(c *Case) lsObject {
 	switch lsObjects[int(c.knob("obj", 0))%len(lsObjects)] {
@@ -899,6 +944,8 @@ func buildLsObject(c *Case) lsObject {
 		return &lsSessTopics{s: s}
 	case "ackq":
 		return &lsAckq{q: ack.NewQueue(), fired: map[string]int{}, exp: map[string]int{}}
+	case "replmerge":
+		return newLsRepl()
 	case "retx":
 		return &lsRetx{q: ack.NewQueue(), pool: wasp.VerifNewMIDPool(1, 8), size: 8, alive: map[string]bool{"s1": true, "s2": true}, lastT: map[int]*retxGen{}}
 	default:
@@ -1108,6 +1155,19 @@ func genLsOps(r *Rand, objIdx int, c *Case, nt int, perTask int) {
 				}
 			}
 		}
+	case "replmerge":
+		for i := 0; i < nt; i++ {
+			for n := 0; n < perTask+1; n++ {
+				switch r.Intn(8) {
+				case 0:
+					c.Steps = append(c.Steps, Step{K: "mergeall", C: i})
+				case 1:
+					c.Steps = append(c.Steps, Step{K: r.Pick([]string{"listing", "snapshot"}), C: i})
+				default:
+					c.Steps = append(c.Steps, Step{K: "notify", C: i, I: int64(r.Intn(12))})
+				}
+			}
+		}
 	case "retx":
 		for i := 0; i < nt; i++ {
 			for n := 0; n < perTask; n++ {
@@ -1176,7 +1236,10 @@ func init() {
 	real := []string{"wasp.lockedMapState, wasp.simpleMidPool, wasp/ack.Queue + expiration lists, topics.Store, subscriptions.Tree, wasp/distributed.State, wasp/sessions.Session (all instrumented with a yield before every statement and scheduler-aware try-locks)", "Go race detector (ThreadSanitizer)"}
 	stub := []string{"goroutine scheduling: tasks released one at a time by the simulator through raw pipe syscalls (no happens-before edges of its own)", "gotomic.Hash, memberlist.TransmitLimitedQueue, protobuf: not instrumented, atomic steps between yields"}
 	assume := []string{"the race detector keeps a bounded access history per location", "linearizability is checked with porcupine for histories of up to 24 operations; a timed-out check is inconclusive and never reported", "the in-flight table and the replicated state are judged by invariants (exactly-once resolution, distinct-key effects present) plus the race detector, not by a full linearizability model"}
-	all := []int{0, 1, 2, 3, 4, 5, 6, 7}
+	all := []int{0, 1, 2, 3, 4, 5, 6, 7, 8}
+	register(&Check{ID: "C08", Level: "exploration", Build: "lockstep", Gen: genLockstep([]int{8}), Run: runLockstep, QuickS: 15, ThoroughS: 200,
+		Rule: "concurrent variant: 2-4 tasks delivering competing updates for the same session, subscription and retained keys (NotifyMsg one at a time, MergeRemoteState batched) to one replica under PRNG statement-level schedules, race detector on; afterwards every key must show the newest of the updates that were delivered (memberlist calls these entry points from several goroutines)",
+		Real: real, Stub: stub, Assume: assume})
 	register(&Check{ID: "C03", Level: "exploration", Build: "lockstep", Gen: genLockstep([]int{7}), Run: runLockstep, QuickS: 15, ThoroughS: 200,
 		Rule: "concurrent variant: 2-4 tasks driving the writer's protocol (allocate an identifier, register with the retransmit-or-release callback, acknowledge, sweep, end a session) on the real in-flight table and pool under PRNG statement-level schedules, race detector on; each exchange releases its identifier exactly once, is never retransmitted after its acknowledgement was accepted, and the pool drains back to full",
 		Real: real, Stub: append([]string{"writer.sendQoS1's use of the table and the pool is re-implemented by the harness around the real objects (the writer's own methods are unexported)"}, stub...), Assume: assume})
